@@ -90,8 +90,9 @@ func genCase(r *rand.Rand, i int, tier string) Input {
 func init() {
 	fw.Register(&fw.Prop{
 		ID: "C09",
-		Rule: "inputs: generated HTML documents whose elements carry one of 20 display values (block, inline, inline-block, list-item, table, inline-table, the 8 table-internal values, flex, inline-flex, grid, inline-grid, flow-root, none) × float × position × ::before/::after with display and float × list-style-position × caption-side, plus (random trees only) multi-keyword display spellings and inline list-item, HTML tables (colgroup/col span, colspan/rowspan incl. rowspan=0), replaced elements with children (svg, object, img). " +
-			"Enumerated exhaustively: every (parent, child, grandchild) display triple with and without surrounding text, every (parent, child, child) sibling triple with no / white-space / text separator, every (parent, child) pair with the child floated or absolutely positioned, every (element, pseudo-element) display pair, every caption-side combination of two captions of a table; thorough adds every 4-chain over the 12 table-related values. The rest are random trees of at most 40 elements. " +
+		Rule: "inputs: generated HTML documents whose elements carry one of 20 display values (block, inline, inline-block, list-item, table, inline-table, the 8 table-internal values, flex, inline-flex, grid, inline-grid, flow-root, none) × float (left, right, footnote with footnote-display block / inline / compact) × position × ::before/::after with display and float × list-style-position × caption-side, plus (random trees only) multi-keyword display spellings and inline list-item, HTML tables (colgroup/col span, colspan/rowspan incl. rowspan=0), replaced elements with children (svg, object, img). " +
+			"Enumerated exhaustively: every (parent, child, grandchild) display triple with and without surrounding text, every (parent, child, child) sibling triple with no / white-space / text separator, every (parent, child) pair with the child floated or absolutely positioned, every (element, pseudo-element) display pair, every caption-side combination of two captions of a table, every (parent display, footnote element display, footnote-display) combination of a footnote element in three shapes (between text, first with block and display:none children, nested in another footnote); thorough adds every 4-chain over the 12 table-related values. The rest are random trees of at most 40 elements (7 % of their elements are footnote elements, with any display incl. none, any position, in any context incl. tables, flex/grid containers, hidden and replaced ancestors, other footnotes, body). " +
+			"Footnotes: the footnote boxes are reached through the Footnote link of the ::footnote-call boxes met in the tree and must be listed in the footnotes output; they are put in a footnote area formed as layout does (CreateAnonymousBox over a block holding deep copies of them) and that area is walked with every clause; footnote_* counters tell how many were walked, how many display:none / hidden footnote elements were verified box-less. " +
 			"A case is non-trivial when at least one element other than html/body is rendered, every clause held, and the observed tree has more boxes than the document has rendered elements (text, line, anonymous or wrapper boxes were generated and walked); distinct = distinct input.",
 		N: func(tier string) int {
 			a, b, c, d, e, f := famSizes(tier)
@@ -119,6 +120,12 @@ func init() {
 				"tokens_conserved": 100000, "tokens_hidden_absent": 3000, "hidden_elements_verified": 3000,
 				"replaced_children_verified": 100, "column_children_verified": 500,
 				"markers_outside": 500, "markers_inside": 20, "captions_top": 500, "captions_bottom": 100, "docs_order_checked": 10000,
+				// footnote elements (float:footnote): walked in a footnote area, by display in the area,
+				// nested, and the ones that must generate nothing (display:none itself / hidden otherwise)
+				"fam_footnote": nFoot, "footnotes_walked": 6000, "footnote_calls": 6000, "footnote_elements_checked": 6000,
+				"footnote_display_block": 3000, "footnote_display_inline": 2000, "footnote_calls_nested": 800,
+				"footnote_display_none_verified": 200, "footnote_hidden_verified": 800, "footnote_float_on_abspos": 200,
+				"footnotes_listed_without_call": 400, "footnote_specified_list-item": 100, "footnote_specified_table-cell": 300,
 			}
 		},
 		Assumptions: []string{
@@ -126,7 +133,9 @@ func init() {
 			"the cascade and computed values other than display/float/position are not judged here (C03/C04); every element is styled through one id selector",
 			"out-of-flow boxes are recognised from the box's own computed float/position",
 			"a table-internal child of a flex container is accepted either blockified (css-flexbox-1 §4) or, as webrender does, kept inside an anonymous table that is the flex item",
-			"run-in, ruby, display:contents, running() and footnotes are not generated",
+			"run-in, ruby, display:contents and running() are not generated",
+			"footnotes (css-gcpm-3 §2): float:footnote is generated on elements other than the root, not on ::before/::after (webrender leaves such a pseudo-element in the flow; undefined in GCPM); BuildFormattingStructure returns footnote boxes before anonymous-box fix-up, so the check forms the footnote area itself the way layoutContext.updateFootnoteArea does (bo.CreateAnonymousBox over an anonymous block of the root box whose children are bo.Deepcopy of the footnote boxes reached through ::footnote-call links, nested footnotes in a further area); footnote-display:compact may give a block or an inline box (UA's choice per GCPM); a footnote element keeps the marker of a list-item display (blockified per CSS 2.1 §9.7); ::footnote-marker is not judged on replaced elements and <img>",
+			"which element a ::footnote-call box is attached to is not judged (webrender: the parent of the footnote element, counted as footnote_calls_on_parent_element); entries of the footnotes list that no call links (the call was removed with the content of a replaced element or by §17.2.1 rules 1.1/1.2; never laid out) are counted, not judged, unless their element is in a display:none subtree",
 		},
 		Exhaustive: func(tier string) bool { return false },
 		Batch:      1500,
